@@ -6,6 +6,7 @@ import (
 	"go/ast"
 	"go/token"
 	"go/types"
+	"sort"
 	"strings"
 
 	"rscheck/cfgq"
@@ -25,7 +26,7 @@ func (r *rs) psyncReply() {
 		return
 	}
 	info := fn.Pkg.TypesInfo
-	g := cfgq.Of(c.Program, fn)
+	g := flow.GraphOf(c.Program, fn)
 	brID, br := param(fn, 0)
 	runID, _ := param(fn, 2)
 	offID, _ := param(fn, 3)
@@ -234,7 +235,7 @@ func (r *rs) psyncReply() {
 				}
 			}
 			c.Check("R5.reply", "SendPSyncContinue/fullresync-offset", ret.Pos(), okOff, "on FULLRESYNC the offset is ParseInt(field 2, 10, 64): any other value shifts every offset acknowledged and resumed from afterwards")
-			wc, isCall := ast.Unparen(ret.Results[2]).(*ast.CallExpr)
+			wc, isCall := ast.Unparen(flow.ChaseDef(g, ret.Results[2], pt)).(*ast.CallExpr)
 			if !isCall || core.CalleeFunc(info, wc) != wait.Obj {
 				c.Undecidedf("R2.reader", "SendPSyncContinue/header-reader", ret.Pos(), "the third result %s is not a call of waitRdbDump", c.Src(ret.Results[2]))
 			} else {
@@ -345,6 +346,46 @@ func (r *rs) continueReturn(fn *core.Fn, g *cfgq.Graph, ret *ast.ReturnStmt, run
 // ---------------------------------------------------------------------------
 // R2 / R5.use: sendPSyncCmd
 
+// sameValue: does expression e, read at point `at`, carry the value held by
+// obj? known is false when e is a variable whose value cannot be traced to a
+// single definition - then nothing is claimed either way.
+func sameValue(g *cfgq.Graph, at cfgq.Point, e ast.Expr, obj types.Object) (same, known bool) {
+	info := g.Info
+	cur := unconv(info, e)
+	for i := 0; i < 6; i++ {
+		if flow.IsObj(info, obj)(cur) {
+			return true, true
+		}
+		o := flow.Obj(info, cur)
+		if o == nil {
+			return false, true // a literal, a call, a field: not the variable's value by any copy
+		}
+		v, isVar := o.(*types.Var)
+		if !isVar {
+			return false, true
+		}
+		if flow.Assignments(info, g.Body, v) == 0 {
+			return false, true // a parameter (or a variable never assigned): a different value
+		}
+		d, p := flow.ReachingDefAt(g, v, at)
+		if d == nil {
+			return false, false
+		}
+		cur, at = unconv(info, d), p
+	}
+	return false, false
+}
+
+// checkSame records `e carries obj's value` as an obligation: VIOLATION only when e provably is something else.
+func (r *rs) checkSame(rule, key string, pos token.Pos, g *cfgq.Graph, at cfgq.Point, e ast.Expr, obj types.Object, detail string) {
+	same, known := sameValue(g, at, e, obj)
+	if !known {
+		r.c.Undecidedf(rule, key, pos, "cannot trace %s to a single definition; required: %s", r.c.Src(e), detail)
+		return
+	}
+	r.c.Check(rule, key, pos, same, detail)
+}
+
 func (r *rs) sendPSyncCmd() {
 	c := r.c
 	fn, spc, ris := r.fn(pkgS, "DbSyncer", "sendPSyncCmd"), r.fn(pkgU, "", "SendPSyncContinue"), r.fn(pkgS, "DbSyncer", "runIncrementalSync")
@@ -352,7 +393,7 @@ func (r *rs) sendPSyncCmd() {
 		return
 	}
 	info := fn.Pkg.TypesInfo
-	g := cfgq.Of(c.Program, fn)
+	g := flow.GraphOf(c.Program, fn)
 	calls := callsTo(info, fn.Decl.Body, spc.Obj, false)
 	if len(calls) != 1 {
 		c.Undecidedf("R2.reader", "sendPSyncCmd/handshake-reader", fn.Decl.Pos(), "expected one SendPSyncContinue call, found %d", len(calls))
@@ -413,7 +454,7 @@ func (r *rs) sendPSyncCmd() {
 			"the copy goroutine must get the connection together with the one reader created over it: the reader holds the bytes that follow the PSYNC reply")
 		okS, wS := g.Dominated(gp, stored)
 		c.Check("R5.use", key+"/offset-stored", gc.Pos(), okS, "the offset announced by the source must be stored in ds.sourceOffset before the stream is consumed: all later ACKs and checkpoints count from it", wS...)
-		c.Check("R5.use", key+"/runid-passed", gc.Pos(), flow.IsObj(info, res[0])(gc.Args[4]), "the run id announced by the source is the one the copy loop reconnects with")
+		r.checkSame("R5.use", key+"/runid-passed", gc.Pos(), g, gp, gc.Args[4], res[0], "the run id announced by the source is the one the copy loop reconnects with")
 		// the size
 		isWait := flow.IsObj(info, res[2])
 		size := unconv(info, flow.Resolve(info, fn.Decl.Body, gc.Args[3]))
@@ -448,7 +489,7 @@ func (r *rs) sendPSyncCmd() {
 		if !core.IsNil(info, ret.Results[4]) || g.Path(cfgq.Query{From: hp, After: true, Target: isNode(ret)}) == nil {
 			continue
 		}
-		c.Check("R5.use", "sendPSyncCmd/returns-runid", ret.Pos(), flow.IsObj(info, res[0])(ret.Results[3]), "the run id reported to Sync is the one announced by the source")
+		r.checkSame("R5.use", "sendPSyncCmd/returns-runid", ret.Pos(), g, p, ret.Results[3], res[0], "the run id reported to Sync is the one announced by the source")
 	}
 }
 
@@ -462,76 +503,182 @@ func (r *rs) runIncrementalSync() {
 		return
 	}
 	info := fn.Pkg.TypesInfo
-	g := cfgq.Of(c.Program, fn)
+	g := flow.GraphOf(c.Program, fn)
 	_, conn := param(fn, 0)
 	_, br := param(fn, 1)
 	_, sizeP := param(fn, 3)
 	r.boundedCaller("runIncrementalSync", fn, g, fn.Decl.Body, ioc, br, sizeP)
-	setsConn, setsBr := assignsTo(info, conn), assignsTo(info, br)
+	// Which reader belongs to which connection is a statement about VALUES, not about the variables (or
+	// struct fields) that carry them. A path-sensitive walk names every value by where it was produced:
+	// the connection and the reader handed over by the caller (whose buffer holds the first command
+	// bytes), every connection opened later, every buffered reader created - remembering over which
+	// connection value it was created. A value produced by a call is a new one each time the call runs.
 	copies := callsTo(info, fn.Decl.Body, ppc.Obj, false)
-	isCopy := flow.CallOn(g, func(call *ast.CallExpr) bool {
-		f := core.CalleeFunc(info, call)
-		return f == ppc.Obj || f == ioc.Obj
-	})
+	allReaders := newReaders(info, fn.Decl.Body, false)
+	const (
+		good = iota
+		unknown
+		bad
+	)
+	type verdict struct {
+		st   int
+		seen bool
+		why  string
+	}
+	worse := func(v *verdict, st int, why string) {
+		v.seen = true
+		if st > v.st {
+			v.st, v.why = st, why
+		}
+	}
+	copyV := map[*ast.CallExpr]*verdict{}
+	for _, call := range copies {
+		copyV[call] = &verdict{}
+	}
+	type rdV struct{ fresh, once verdict }
+	readerV := map[*ast.CallExpr]*rdV{}
+	for _, nr := range allReaders {
+		readerV[nr] = &rdV{}
+	}
+	connV := map[string]*verdict{} // per connection value opened in this function
+	connSrc := map[string]ast.Node{}
+	w := &flow.Sym{G: g}
+	connID, brID := ast.NewIdent(conn.Name()), ast.NewIdent(br.Name())
+	info.Uses[connID], info.Uses[brID] = conn, br
+	init := flow.NewState()
+	conn0, br0 := w.Eval(connID, init).Tok, w.Eval(brID, init).Tok
+	known := func(v flow.SVal) bool { return v.Tok != "" && !strings.HasPrefix(v.Tok, "expr") }
+	w.Visit = func(m ast.Node, st *flow.SState) bool {
+		calls := cfgq.ExecCalls(m)
+		// a call that runs again yields a new value: what was known about its previous result is void
+		for _, call := range calls {
+			tok := fmt.Sprintf("call%p#0", call)
+			delete(st.Marks, "reader-over:"+tok)
+			delete(st.Marks, "conn-of:"+tok)
+		}
+		for _, call := range calls {
+			rv := readerV[call]
+			if rv == nil {
+				continue
+			}
+			cv := w.Eval(call.Args[0], st)
+			switch {
+			case !known(cv):
+				worse(&rv.fresh, unknown, fmt.Sprintf("cannot tell which connection %s is", c.Src(call.Args[0])))
+				worse(&rv.once, unknown, "")
+				continue
+			case cv.Tok == conn0:
+				worse(&rv.fresh, bad, "")
+			default:
+				worse(&rv.fresh, good, "")
+			}
+			if _, has := st.Marks["reader-over:"+cv.Tok]; has {
+				worse(&rv.once, bad, "")
+			} else {
+				worse(&rv.once, good, "")
+			}
+			st.Marks["reader-over:"+cv.Tok] = flow.SVal{Kind: flow.SBool, B: true}
+			st.Marks["conn-of:"+fmt.Sprintf("call%p#0", call)] = flow.SVal{Tok: cv.Tok}
+			if cv.Tok != conn0 {
+				if connV[cv.Tok] == nil {
+					connV[cv.Tok], connSrc[cv.Tok] = &verdict{}, cv.Src
+				}
+			}
+		}
+		for _, call := range calls {
+			v := copyV[call]
+			if v == nil || len(call.Args) < 2 {
+				continue
+			}
+			cv, bv := w.Eval(call.Args[0], st), w.Eval(call.Args[1], st)
+			of := ""
+			switch {
+			case bv.Tok == br0:
+				of = conn0
+			case known(bv):
+				if mk, has := st.Marks["conn-of:"+bv.Tok]; has {
+					of = mk.Tok
+				}
+			}
+			st8 := good
+			switch {
+			case !known(cv) || of == "":
+				st8 = unknown
+			case of != cv.Tok:
+				st8 = bad
+			}
+			worse(v, st8, fmt.Sprintf("connection %s, reader %s", c.Src(call.Args[0]), c.Src(call.Args[1])))
+			if known(cv) && cv.Tok != conn0 {
+				if connV[cv.Tok] == nil {
+					connV[cv.Tok], connSrc[cv.Tok] = &verdict{}, cv.Src
+				}
+				worse(connV[cv.Tok], st8, "")
+			}
+		}
+		return false
+	}
+	w.Run(init)
 	for i, call := range copies {
-		c.Check("R2.reader", fmt.Sprintf("runIncrementalSync/stream-copy#%d", i+1), call.Pos(), flow.IsObj(info, conn)(call.Args[0]) && flow.IsObj(info, br)(call.Args[1]),
-			"the command stream is copied from the reader that the RDB was copied from (and the connection it wraps): the first command bytes are usually already in that reader's buffer")
+		key := fmt.Sprintf("runIncrementalSync/stream-copy#%d", i+1)
+		v := copyV[call]
+		switch {
+		case w.Overflow || !v.seen || v.st == unknown:
+			c.Undecidedf("R2.reader", key, call.Pos(), "cannot tell from which connection and reader values the command stream is copied (%s)", v.why)
+		default:
+			c.Check("R2.reader", key, call.Pos(), v.st == good,
+				"the command stream is copied from the reader that the RDB was copied from (and the connection it wraps): the first command bytes are usually already in that reader's buffer")
+		}
 	}
 	if len(copies) == 0 {
 		c.Undecidedf("R2.reader", "runIncrementalSync/stream-copy", fn.Decl.Pos(), "no pSyncPipeCopy call")
 	}
-	allReaders := newReaders(info, fn.Decl.Body, false)
 	for i, nr := range allReaders {
 		key := fmt.Sprintf("runIncrementalSync/new-reader#%d", i+1)
-		p, ok := flow.PointOf(g, nr)
-		src := flow.Obj(info, nr.Args[0]) // the connection variable this reader wraps (the parameter, or a helper's local)
-		if !ok || src == nil {
-			c.Undecidedf("R2.reader", key, nr.Pos(), "%s does not wrap a plain connection variable", c.Src(nr))
-			continue
+		rv := readerV[nr]
+		if w.Overflow || !rv.fresh.seen || rv.fresh.st == unknown {
+			c.Undecidedf("R2.reader", key+"/only-on-new-conn", nr.Pos(), "%s: the connection it wraps cannot be traced (%s)", c.Src(nr), rv.fresh.why)
+		} else {
+			c.Check("R2.reader", key+"/only-on-new-conn", nr.Pos(), rv.fresh.st == good, "a new buffered reader may be created only over a connection opened here: a second reader over the connection handed over by the caller misses the bytes the first one has buffered")
 		}
-		setsSrc := assignsTo(info, src)
-		w := g.Path(cfgq.Query{From: g.Entry(), Avoid: setsSrc, Target: isNode(p.Node())})
-		c.Check("R2.reader", key+"/only-on-new-conn", nr.Pos(), w == nil, "a new buffered reader may be created only after the connection variable was replaced: a second reader over the original connection misses the bytes the first one has buffered", w...)
-		w2 := g.Path(cfgq.Query{From: p, After: true, Avoid: setsSrc, Target: func(m ast.Node) bool {
-			for _, o := range newReaders(info, m, false) {
-				if flow.Obj(info, o.Args[0]) == src {
-					return true
-				}
-			}
-			return false
-		}})
-		c.Check("R2.reader", key+"/once-per-conn", nr.Pos(), w2 == nil, "at most one buffered reader per connection", w2...)
+		if w.Overflow || !rv.once.seen || rv.once.st == unknown {
+			c.Undecidedf("R2.reader", key+"/once-per-conn", nr.Pos(), "%s: the connection it wraps cannot be traced", c.Src(nr))
+		} else {
+			c.Check("R2.reader", key+"/once-per-conn", nr.Pos(), rv.once.st == good, "at most one buffered reader per connection")
+		}
 	}
-	for i, p := range g.Points(setsConn) {
-		key := fmt.Sprintf("runIncrementalSync/reconnect#%d/fresh-reader", i+1)
-		// `c, br, bw = c2, br2, bw2`: connection and reader replaced by one statement
-		if as, ok := p.Node().(*ast.AssignStmt); ok && setsBr(as) {
-			var ec, eb ast.Expr
-			if len(as.Lhs) == len(as.Rhs) {
-				for j, l := range as.Lhs {
-					if flow.IsObj(info, conn)(l) {
-						ec = as.Rhs[j]
-					}
-					if flow.IsObj(info, br)(l) {
-						eb = as.Rhs[j]
-					}
-				}
-			}
-			paired := false
-			if ec != nil && eb != nil {
-				if nr, isCall := ast.Unparen(flow.ValueOf(info, fn.Decl.Body, eb)).(*ast.CallExpr); isCall && len(newReaders(info, nr, false)) == 1 && newReaders(info, nr, false)[0] == nr {
-					paired = flow.Obj(info, nr.Args[0]) != nil && flow.Obj(info, nr.Args[0]) == flow.Obj(info, ec)
-				}
-			}
-			if paired {
-				c.Okf("R2.reader", key, as.Pos(), "the connection is replaced together with a reader created over the new connection")
-			} else {
-				c.Undecidedf("R2.reader", key, as.Pos(), "connection and reader are replaced by %s, whose reader cannot be traced to bufio.NewReader*(new connection)", c.Src(as))
-			}
-			continue
+	// every connection opened here: what is copied from it afterwards goes through a reader created over it
+	var toks []string
+	for t := range connV {
+		toks = append(toks, t)
+	}
+	sort.Slice(toks, func(i, j int) bool {
+		pi, pj := token.NoPos, token.NoPos
+		if n := connSrc[toks[i]]; n != nil {
+			pi = n.Pos()
 		}
-		w := g.Path(cfgq.Query{From: p, After: true, Avoid: cfgq.Or(setsBr, setsConn), Target: isCopy})
-		c.Check("R2.reader", key, p.Node().Pos(), w == nil, "after the connection was replaced nothing may be copied through the old reader: it still holds (and would replay) bytes of the dead connection", w...)
+		if n := connSrc[toks[j]]; n != nil {
+			pj = n.Pos()
+		}
+		if pi != pj {
+			return pi < pj
+		}
+		return toks[i] < toks[j]
+	})
+	for i, t := range toks {
+		key := fmt.Sprintf("runIncrementalSync/reconnect#%d/fresh-reader", i+1)
+		pos := fn.Decl.Pos()
+		if n := connSrc[t]; n != nil {
+			pos = n.Pos()
+		}
+		v := connV[t]
+		switch {
+		case w.Overflow || v.st == unknown:
+			c.Undecidedf("R2.reader", key, pos, "cannot trace the reader used with the connection opened here")
+		case !v.seen:
+			c.Okf("R2.reader", key, pos, "a reader is created over the connection opened here; nothing else is copied from it")
+		default:
+			c.Check("R2.reader", key, pos, v.st == good, "after the connection was replaced nothing may be copied through the old reader: it still holds (and would replay) bytes of the dead connection")
+		}
 	}
 }
 
@@ -569,7 +716,7 @@ func (r *rs) rawConn(pkgPath, recv, name string) {
 		return
 	}
 	info := fn.Pkg.TypesInfo
-	g := cfgq.Of(c.Program, fn)
+	g := flow.GraphOf(c.Program, fn)
 	calls := callsTo(info, fn.Decl.Body, osc.Obj, false)
 	if len(calls) != 1 {
 		c.Undecidedf("R2.reader", name+"/raw-conn", fn.Decl.Pos(), "expected one OpenSyncConn call")
@@ -622,6 +769,43 @@ func (r *rs) replyUsed() {
 		pos    token.Pos
 	}
 	roles := map[string]*agg{}
+	note := func(role string, info *types.Info, body ast.Node, call *ast.CallExpr) {
+		wait := assignedVar(info, body, call, 2)
+		used := false
+		if wait != nil {
+			core.InspectAll(body, func(m ast.Node) bool {
+				if id, ok := m.(*ast.Ident); ok && info.Uses[id] == wait {
+					used = true
+				}
+				return true
+			})
+		}
+		a := roles[role]
+		if a == nil {
+			a = &agg{pos: call.Pos()}
+			roles[role] = a
+		}
+		a.n++
+		if !used {
+			a.bad++
+			a.pos = call.Pos()
+		}
+	}
+	// The role of a call is decided by who reaches it, not by the function that happens to contain it:
+	// the handshake of sendPSyncCmd and the reconnect of runIncrementalSync are looked at in the views of
+	// these two functions, in which their helpers are expanded; any other function that still contains a
+	// call the views did not show counts as a reconnect of its own.
+	covered := map[token.Pos]bool{}
+	for _, v := range []struct{ role, recv, name string }{{"sendPSyncCmd", "DbSyncer", "sendPSyncCmd"}, {"reconnect", "DbSyncer", "runIncrementalSync"}} {
+		fn := r.fn(pkgS, v.recv, v.name)
+		if fn == nil {
+			continue
+		}
+		for _, call := range callsTo(fn.Pkg.TypesInfo, fn.Decl.Body, spc.Obj, true) {
+			covered[call.Pos()] = true
+			note(v.role, fn.Pkg.TypesInfo, fn.Decl.Body, call)
+		}
+	}
 	for _, pp := range []string{pkgS, pkgR, pkgU} {
 		pk := c.Pkg(pp)
 		info := pk.TypesInfo
@@ -632,30 +816,14 @@ func (r *rs) replyUsed() {
 					continue
 				}
 				for _, call := range callsTo(info, fd.Body, spc.Obj, true) {
-					wait := assignedVar(info, fd.Body, call, 2)
-					used := false
-					if wait != nil {
-						core.InspectAll(fd.Body, func(m ast.Node) bool {
-							if id, ok := m.(*ast.Ident); ok && info.Uses[id] == wait {
-								used = true
-							}
-							return true
-						})
+					if covered[call.Pos()] {
+						continue
 					}
 					role := "reconnect"
 					if fd.Name.Name == "sendPSyncCmd" {
 						role = "sendPSyncCmd"
 					}
-					a := roles[role]
-					if a == nil {
-						a = &agg{pos: call.Pos()}
-						roles[role] = a
-					}
-					a.n++
-					if !used {
-						a.bad++
-						a.pos = call.Pos()
-					}
+					note(role, info, fd.Body, call)
 				}
 			}
 		}
